@@ -41,6 +41,10 @@ class Cut(BaseException):
     """An unwinding bound was hit; the path is counted as cut."""
 
 
+SAMPLE_EVERY = 100
+SAMPLE_MAX = 12
+
+
 class Stats:
     def __init__(self):
         self.queries = 0
@@ -526,7 +530,7 @@ def distinct(xs):
 def at_most(flags, k):
     flags = list(flags)
     if any(isinstance(f, SymBool) for f in flags):
-        return SymBool(z3.PbLe([(_bool_term(f), 1) for f in flags], k))
+        return SymBool(z3.Sum([z3.If(_bool_term(f), 1, 0) for f in flags]) <= k)      # portable (cvc5 has no pseudo-boolean atoms)
     return sum(1 for f in flags if f) <= k
 
 
@@ -589,6 +593,13 @@ def run_path(body, prefix, stats, qtimeout_ms=10000):
             r = c._check(z3.Not(cond_s))
             if r == z3.unknown:
                 raise SolverUnknown(f"obligation {name}")
+            # second-solver sample: every SAMPLE_EVERY-th end-of-path query is dumped for cvc5
+            stats.ob_queries = getattr(stats, "ob_queries", 0) + 1
+            if stats.ob_queries % SAMPLE_EVERY == 1 and len(getattr(stats, "smt_samples", [])) < SAMPLE_MAX:
+                s2 = z3.Solver()
+                s2.add(c.solver.assertions())
+                s2.add(z3.Not(cond_s))
+                stats.smt_samples = getattr(stats, "smt_samples", []) + [(str(r), s2.to_smt2())]
             if r == z3.sat:
                 failed.append((name, c.model_values(c.solver.model()), info))
         if failed:
@@ -616,6 +627,8 @@ def run_concrete(body, values):
         return "assumption", [], c.notes, str(e)
     except Cut as e:
         return "cut", [], c.notes, str(e)
+    except Unsupported as e:          # the harness cannot drive this tree (e.g. a private helper it needs is gone)
+        return "unsupported", [], c.notes, str(e)
     except Exception as e:
         return "exception", c.obligations, c.notes, f"{type(e).__name__}: {e}"
     return "ok", c.obligations, c.notes, None
